@@ -150,7 +150,8 @@ impl Prop for C15 {
                 });
             }
             // timestamps: mostly increasing, sometimes going back, sometimes huge gaps
-            ts = match rng.below(8) {
+            ts = match rng.below(9) {
+                8 => ts, // equal timestamps: a gap of exactly 0
                 0 => ts.saturating_sub(rng.range(1, 7200) as u32).max(1),
                 1 if big_gaps => {
                     if ts < 0x8000_0000 {
